@@ -177,10 +177,91 @@ def check_program(ctx, im, text, gp, ninputs, layer, prog=None):
             ctx.count(f"{layer}/{layout}/agreed")
 
 
+ELSEWHERE = [
+    'def e1 { salt: "x" splitters: uid, sid, zone, app, Uid return "a" weighted 1, "b" weighted 1, "c" weighted 2 }',
+    'def e2 { splitters: b, a, B, _c if plan in ("p", "q") { return 1 weighted 1, 2 weighted 3 } else { return 3 weighted 1, 4 weighted 1 } }',
+    'def e3 { splitters: user_id, country if country == "US" and age >= 21 { return "x" weighted 1, "y" weighted 1 } else if age < 21 { return "z" weighted 1 } }',
+    'def e4 { salt: "s" splitters: k9, k1, k5, k3, k7, k2 return "g0" weighted 1, "g1" weighted 1 }',
+]
+
+
+def generated_elsewhere(ctx, im):
+    """generate_code run in fresh interpreters with other hash seeds; the text is loaded here and compared with evaluators built
+    here: nothing about the emitted text may depend on the process that emitted it (iteration order of a set of names ...)"""
+    import json
+    import os
+    import shutil
+    import subprocess
+    import tempfile
+
+    from pyabv.run import HOME, PYTHON, REPO
+
+    rnd = ctx.rnd
+    tmp = tempfile.mkdtemp(prefix="pyabv-c14-")
+    try:
+        cp = os.path.join(tmp, "corpus.json")
+        with open(cp, "w", encoding="ascii") as f:
+            json.dump({"programs": ELSEWHERE}, f, ensure_ascii=True)
+        evs = [im.construct(t) for t in ELSEWHERE]
+        for hs in (["1", "2"] if ctx.quick() else ["1", "2", "3", str(rnd.randrange(4, 2**31)), "random"]):
+            out = os.path.join(tmp, f"gen-{hs}.json")
+            env = dict(os.environ, PYTHONPATH=f"{HOME}:{os.path.join(REPO, 'src')}", PYTHONHASHSEED=hs)
+            try:
+                p = subprocess.run([PYTHON, "-B", "-m", "pyabv.gen_child", cp, out], env=env, cwd=HOME, capture_output=True, timeout=300)
+            except subprocess.TimeoutExpired:
+                ctx.set_inconclusive("C14 generation child: watchdog fired")
+                return
+            if p.returncode != 0 or not os.path.exists(out):
+                ctx.set_inconclusive("C14 generation child failed: " + p.stderr.decode("utf-8", "replace")[-300:])
+                return
+            with open(out, encoding="ascii") as f:
+                rows = json.load(f)["generated"]
+            for text, c, row in zip(ELSEWHERE, evs, rows):
+                if c[0] != "ok":
+                    continue
+                prog = ref_parse(text)[1]
+                fields = sorted(Inferred(prog, text).kinds)
+                for layout in ("nested", "exposed"):
+                    if layout not in row:
+                        ctx.violation("generate-code-raised", dict(text=text, layout=layout, error=row.get(layout + "_error"), process="hash seed " + hs),
+                                      mechanism="C14/generate-code-raised")
+                        continue
+                    ns = {"__name__": "gen"}
+                    try:
+                        exec(compile(row[layout], "<generated elsewhere>", "exec"), ns)
+                    except Exception as e:  # noqa: BLE001
+                        ctx.violation("generated-module-does-not-load", dict(text=text, layout=layout, error=[type(e).__name__, str(e)[:200]]),
+                                      mechanism="C14/module-does-not-load")
+                        continue
+                    fn = ns.get(prog.id)
+                    for j in range(40):
+                        envd = {f: rnd.choice(["US", "p", "x", 1, 2, 21, 20, 7.5, None, "u%d" % j, j]) for f in fields}
+                        a, b = im.call(c[1], envd), im.call(fn, envd)
+                        ctx.evaluated()
+                        same = a == b if a[0] != "exc" else (b[0] == "exc" and a[1] == b[1])
+                        if not same:
+                            ctx.violation("generated-source-disagrees-with-evaluator",
+                                          dict(text=text, layout=layout, env=envd, evaluator=a, generated=b, layer="generated-elsewhere",
+                                               generated_with_hash_seed=hs), mechanism="C14/disagrees")
+                            return
+                        ctx.nontrivial("elsewhere", hs, text, layout, j)
+            ctx.count("generated-elsewhere/children")
+    finally:
+        shutil.rmtree(tmp, ignore_errors=True)
+
+
 def run(ctx):
     im = impl()
     rnd = ctx.rnd
     idx = 0
+    if ctx.shard == 0 or not ctx.quick():
+        generated_elsewhere(ctx, im)
+    # a float literal beyond the float range (310 digits) becomes inf; whatever the two artefacts do with it, they do the same
+    if ctx.shard == 0:
+        big = "1" + "0" * 309 + ".0"
+        for t in (f'def inf1 {{ splitters: u if f < {big} {{ return "a" weighted 1, "b" weighted 1 }} else {{ return "c" weighted 1 }} }}',
+                  f'def inf2 {{ splitters: u if f in (1, {big}) {{ return "a" weighted 1 }} else {{ return "c" weighted 1, "d" weighted 1 }} }}'):
+            check_program(ctx, im, t, None, 8, "beyond-float-range")
     for name, text in list(corpus.DOCUMENTED.items()) + list(corpus.test_programs().items()) + [(f"seed{i}", s) for i, s in enumerate(corpus.SEEDS)]:
         idx += 1
         if ctx.mine(idx):
